@@ -20,7 +20,7 @@ import subprocess
 
 import astload
 from astload import ExtractionError
-from core import Fn, Target
+from core import Fn, Target, VC
 
 HK = 'specs/C19/clonetab.h'
 
@@ -152,7 +152,7 @@ def clone_defs(group, files):
                     raise ExtractionError(f'{d.get("_file")}:{(d.get("loc") or {}).get("line")}: cannot tell the class of this clone() definition')
             if cls.startswith(('std::', '__gnu_cxx::', 'Eigen::')):
                 continue
-            out.append((tu, selector(d), cls))
+            out.append((tu, selector(d), cls, 'clone', _norm(dm.get(d.get('mangledName'), '').rsplit('::clone()', 1)[0]) or cls))
     return out, patterns, fallback
 
 
@@ -252,33 +252,33 @@ class _Group:
     def get(self):
         if self.defs is None:
             defs, pats, fb = clone_defs(self.name, self.files)
-            if self.name == 'include':
-                # class templates with an in-class clone(): the instantiations are made by the factory files src/*.cpp that include the
-                # header (text include closure); clang prints them when the dump filter names the class template
-                src = os.path.join(astload.REPO, 'src')
-                tops = [os.path.join(src, f) for f in sorted(os.listdir(src)) if f.endswith('.cpp')]
-                for tname, header in sorted(set(pats)):
-                    found = 0
-                    for tu in tops:
-                        if header not in include_closure(tu):
+            # class templates whose clone() clang shows as a dependent pattern: the instantiated bodies are printed when the dump filter
+            # names the class template.  In-class definitions of headers are instantiated by the factory files src/*.cpp that include the
+            # header (text include closure); out-of-line definitions in a .cpp by the explicit instantiations of that same unit
+            src = os.path.join(astload.REPO, 'src')
+            tops = [os.path.join(src, f) for f in sorted(os.listdir(src)) if f.endswith('.cpp')]
+            own_tus = fb if fb else [unity(self.name, self.files)]
+            for tname, header in sorted(set(pats)):
+                found = 0
+                cands = [tu for tu in tops if header in include_closure(tu)] if self.name == 'include' else own_tus
+                for tu in cands:
+                    try:
+                        ms = _clone_methods(tu, tname)
+                    except ExtractionError as e:
+                        if 'no declaration matches' in str(e):
                             continue
-                        try:
-                            ms = _clone_methods(tu, tname)
-                        except ExtractionError as e:
-                            if 'no declaration matches' in str(e):
-                                continue
-                            raise
-                        ms = [d for d in ms if d.get('mangledName')]
-                        dm = demangle([d['mangledName'] for d in ms])
-                        for d in ms:
-                            m = re.fullmatch(r'(.*)::clone\(\) const', dm.get(d['mangledName'], ''))
-                            if m and m.group(1).split('<')[0].split('::')[-1] == tname.split('::')[-1]:
-                                defs.append((tu, selector(d), this_class(d) or _norm(m.group(1)), tname))
-                                found += 1
-                    if not found:
-                        # a class template the library itself never instantiates (lambda_function_t: user lambdas): no factory object,
-                        # nothing is executed; the pattern is the same `make_unique<T>(*this)` but it is not under contract
-                        self.uninstantiated.append(f'{tname} ({os.path.relpath(header, astload.REPO)})')
+                        raise
+                    ms = [d for d in ms if d.get('mangledName')]
+                    dm = demangle([d['mangledName'] for d in ms])
+                    for d in ms:
+                        m = re.fullmatch(r'(.*)::clone\(\) const', dm.get(d['mangledName'], ''))
+                        if m and m.group(1).split('<')[0].split('::')[-1] == tname.split('::')[-1]:
+                            defs.append((tu, selector(d), this_class(d) or _norm(m.group(1)), tname, _norm(m.group(1))))
+                            found += 1
+                if not found:
+                    # a class template the library itself never instantiates (lambda_function_t: user lambdas): no factory object,
+                    # nothing is executed; the pattern is the same `make_unique<T>(*this)` but it is not under contract
+                    self.uninstantiated.append(f'{tname} ({os.path.relpath(header, astload.REPO)})')
             uniq = {}
             for x in defs:
                 uniq.setdefault(x[2], x)
@@ -290,7 +290,7 @@ class _Group:
         d = self.get()
         if not d:
             raise ExtractionError(f'no clone() definition found in {self.name} although the text prefilter selected {len(self.files)} files')
-        return [clone_fn(x[0], x[1], x[2], flt=(x[3] if len(x) > 3 else 'clone')) for x in d]
+        return [clone_fn(x[0], x[1], x[2], flt=x[3]) for x in d]
 
     def harness(self):
         return harness_for([x[2] for x in self.get()])
@@ -303,3 +303,38 @@ def targets():
         out.append(Target('clones_' + re.sub(r'\W+', '_', name), g.fns, HK, enforce_none=True, harness=g.harness, loops=0,
                           note=f'every clone() definition of {name}/ (found by clang)'))
     return out
+
+
+# ----------------------------------------------------------------------------- registered classes override clone() themselves
+class RegisteredVC(VC):
+    """a class T registered by `factory.add<T>(..)` that does not define clone() ITSELF inherits the clone() of a base: its clones are
+    sliced base objects (another dynamic type: they do not behave identically).  The registered classes are the template arguments of
+    the add<T> instantiations clang reports for one factory file; the classes with their own clone() are the ones under contract above.
+    A syntactic comparison, reported through the VC channel (thorough tier)."""
+
+    def __init__(self, tu):
+        super().__init__('registered_clone/' + re.sub(r'\W+', '_', tu), '(assert true)', about=f'every class that {tu} registers defines clone() itself',
+                         source={'file': tu}, group='registered_clone')
+        self.tu = tu
+
+    def verify(self, cross=False):
+        try:
+            regs = sorted({_norm(astload.template_args(d)[0]) for d in astload.instantiations(self.tu, 'factory_t', 'add') if d.get('mangledName')})
+            own = set()
+            for name, files in sorted(groups().items()):
+                g = _Group(name, files)
+                own |= {x[2] for x in g.get()} | {x[4] for x in g.get()}
+            missing = [t for t in regs if t not in own]
+            self.about += f' ({len(regs)} registered classes' + (f'; WITHOUT their own clone(): {missing}' if missing else '') + ')'
+            if not regs:
+                raise ExtractionError(f'no add<T> instantiation found in {self.tu}')
+        except ExtractionError as e:
+            return {'id': self.name, 'description': self.about + f' -- extraction: {e}', 'target': self.group, 'status': 'UNKNOWN', 'backend': None,
+                    'location': self.source or {}, 'answers': {}, 'seconds': {}}
+        self.smt = '(assert false)' if not missing else '(assert true)'
+        return super().verify(cross)
+
+
+def vcs(tier):
+    import factory
+    return [RegisteredVC(tu) for tu in (factory.FACTORY_TUS if tier == 'thorough' else factory.FACTORY_TUS[:1])]
